@@ -39,6 +39,19 @@ lost_connection_breaks_connection = False
 
 CONNECTION_LEVEL_CODES = (2013, 2006, 2003, 1040, 2055)
 
+# If True, every statement ('<acquire>', cursor.execute / executemany batch, BEGIN, COMMIT, ROLLBACK) is a network round trip: after the
+# fault hook was consulted and BEFORE the fake server executes the statement, the calling task hands control back to the event loop once
+# (`await asyncio.sleep(0)`), as a real aiomysql connection does while it waits for the server.  A cancellation requested by the hook
+# (`task.cancel()`) is therefore delivered while that statement is in flight and the statement is not executed.  OFF by default
+# (C27 switches it on for its cancellation cases).
+statements_are_round_trips = False
+
+
+async def _round_trip():
+    if statements_are_round_trips:
+        import asyncio
+        await asyncio.sleep(0)
+
 _RE_INSERT_VALUES = re.compile(
     r"\s*((?:INSERT|REPLACE)\b.+\bVALUES?\s*)" + r"(\(\s*(?:%s|%\(.+\)s)\s*(?:,\s*(?:%s|%\(.+\)s)\s*)*\))" + r"(\s*(?:ON DUPLICATE.*)?);?\s*\Z",
     re.IGNORECASE | re.DOTALL)
@@ -80,6 +93,7 @@ class FakeCursor:
         conn = self._conn
         conn._check_usable()
         conn._fault(query)
+        await _round_trip()
         res, rc, last = conn._pool.minidb.execute_raw(query, args, conn._session)
         self._set(res, rc, last)
         return self.rowcount
@@ -104,6 +118,7 @@ class FakeCursor:
             # aiomysql / pymysql send one multi-row INSERT
             conn._check_usable()
             conn._fault(query)
+            await _round_trip()
             res, rc, last = conn._pool.minidb.execute_raw(query, None, conn._session, param_sets=list(args))
             self._set(res, rc, last)
             return self.rowcount
@@ -203,6 +218,7 @@ class FakeConnection(_aiomysql.Connection):
     async def begin(self):
         self._check_usable()
         self._fault('BEGIN')
+        await _round_trip()
         self._session.begin()
 
     async def commit(self):
@@ -222,11 +238,13 @@ class FakeConnection(_aiomysql.Connection):
                 if code in CONNECTION_LEVEL_CODES and lost_connection_breaks_connection:
                     self._broken = True
             raise exc
+        await _round_trip()
         self._session.commit()
 
     async def rollback(self):
         self._check_usable()
         self._fault('ROLLBACK')
+        await _round_trip()
         self._session.rollback()
 
     async def autocommit(self, value: bool):
@@ -307,6 +325,7 @@ class FakePool(_aiomysql.Pool):
         exc = self._next_fault('<acquire>', 'pool')
         if exc is not None:
             raise exc
+        await _round_trip()
         self._n += 1
         c = FakeConnection(self, self._n)
         self._open.append(c)
